@@ -285,7 +285,8 @@ func mergeCase(c M) M {
 var decodeDocs = map[string]map[string]string{
 	"aud": {"string": `"a"`, "array": `["a","b"]`, "emptyarray": `[]`, "null": `null`, "number": `1`, "object": `{"a":"b"}`, "bool": `true`,
 		"arrayNonString": `["a",1]`, "nestedArray": `[["a"]]`},
-	"time": {"number": `1500000000`, "float": `1500000000.7`, "negnumber": `-5`, "rfc3339": `"2017-07-14T02:40:00Z"`, "badstring": `"yesterday"`, "null": `null`,
+	"time": {"number": `1500000000`, "float": `1500000000.7`, "negnumber": `-5`, "rfc3339": `"2017-07-14T02:40:00Z"`, "rfc3339Offset": `"2017-07-14T04:40:00+02:00"`,
+		"rfc3339Frac": `"2017-07-14T02:40:00.566Z"`, "rfc3339FracOffset": `"2017-07-14T04:40:00.566+02:00"`, "rfc3339FracNegOffset": `"2017-07-13T21:40:00.25-05:00"`, "badstring": `"yesterday"`, "null": `null`,
 		"bool": `true`, "object": `{}`, "array": `[1500000000]`, "bigfloat": `1e400`, "numericString": `"1500000000"`},
 	"locale": {"tag": `"de"`, "emptyString": `""`, "unknownTag": `"zz-ZZ"`, "unknownSubtag": `"de-ZZZ"`, "unknownScript": `"en-Abcd"`, "unknownLang": `"qq-CH"`, "malformedTag": `"not a tag!"`, "number": `5`, "null": `null`, "object": `{}`},
 	"locales": {"spaceDelimited": `"de fr"`, "array": `["de","fr"]`, "withUnknown": `["de","zz-ZZ","fr"]`, "emptyString": `""`, "null": `null`, "number": `5`,
@@ -314,7 +315,8 @@ func decodeCase(c M) M {
 			if err := json.Unmarshal([]byte(`{"exp":`+raw+`}`), &x); err != nil {
 				return
 			}
-			want := map[string]int64{"number": 1500000000, "float": 1500000000, "negnumber": -5, "rfc3339": 1500000000}
+			want := map[string]int64{"number": 1500000000, "float": 1500000000, "negnumber": -5, "rfc3339": 1500000000, "rfc3339Offset": 1500000000,
+				"rfc3339Frac": 1500000000, "rfc3339FracOffset": 1500000000, "rfc3339FracNegOffset": 1500000000}
 			w, documented := want[form]
 			o["v"] = judge(x.Expiration == 0, documented && int64(x.Expiration) == w)
 		case "locale":
@@ -376,6 +378,8 @@ func sealCase(c M) M {
 	case "other":
 		other = opdrv.OtherCryptoKey
 	}
+	third := opdrv.OtherCryptoKey
+	third[0] ^= 0x40
 	o := M{"open": "error", "fresh": false}
 	p := CatchPanic(func() {
 		var s1, s2, back string
@@ -386,6 +390,12 @@ func sealCase(c M) M {
 				return
 			}
 			s2, _ = op.NewAESCrypto(key).Encrypt(plain)
+			switch S(c, "before") {
+			case "sameStringRightKey":
+				op.NewAESCrypto(key).Decrypt(s1)
+			case "sameStringThirdKey":
+				op.NewAESCrypto(third).Decrypt(s1)
+			}
 			back, err = op.NewAESCrypto(other).Decrypt(s1)
 		} else {
 			s1, err = crypto.EncryptAES(plain, string(key[:]))
@@ -393,6 +403,12 @@ func sealCase(c M) M {
 				return
 			}
 			s2, _ = crypto.EncryptAES(plain, string(key[:]))
+			switch S(c, "before") {
+			case "sameStringRightKey":
+				crypto.DecryptAES(s1, string(key[:]))
+			case "sameStringThirdKey":
+				crypto.DecryptAES(s1, string(third[:]))
+			}
 			back, err = crypto.DecryptAES(s1, string(other[:]))
 		}
 		o["fresh"] = s1 != s2
